@@ -196,7 +196,9 @@ struct qs_agent {
 				break;
 		}
 
-		while(_dom->_qs_counter.load(std::memory_order_relaxed) < target) {
+		// Acquire: what the other agents did before their quiescent states has to
+		// happen-before whatever the caller does after the barrier.
+		while(_dom->_qs_counter.load(std::memory_order_acquire) < target) {
 			quiescent_state();
 		}
 	}
